@@ -15,6 +15,7 @@ import (
 	"github.com/btcsuite/btcd/wire"
 	"github.com/btcsuite/btcutil"
 	"github.com/keep-network/keep-core/internal/verifkit"
+	"github.com/keep-network/keep-core/pkg/bitcoin"
 	"github.com/keep-network/keep-core/pkg/chain"
 	"pgregory.net/rapid"
 )
@@ -186,6 +187,73 @@ func c28GenTxLocktime(t *rapid.T, l uint32) (uint32, string) {
 
 var c28Who = []string{"wallet", "refund", "third"}
 
+// c28GenHistory: the script is a function of the deposit PARAMETERS. A node
+// builds scripts for many deposits in its lifetime and the funding outpoint
+// does not determine the parameters (the Bridge does not check revealed
+// parameters against the funding output; a reveal can be reorganised away and
+// replaced), so the deposit under test comes after 0..2 earlier deposits whose
+// scripts were already built - pointing at the same funding outpoint, another
+// output of the same funding transaction, or an unrelated one. Every deposit
+// carries its UTXO as in production. Earlier scripts are checked against the
+// template as well.
+func c28GenHistory(t *rapid.T) (*c28Deposit, string) {
+	newOutpoint := func() *bitcoin.TransactionOutpoint {
+		op := &bitcoin.TransactionOutpoint{OutputIndex: uint32(rapid.IntRange(0, 3).Draw(t, "fundingOutputIndex"))}
+		copy(op.TransactionHash[:], rapid.SliceOfN(rapid.Byte(), 32, 32).Draw(t, "fundingTxHash"))
+		return op
+	}
+	attach := func(g *c28Deposit, op *bitcoin.TransactionOutpoint) {
+		g.d.Utxo = &bitcoin.UnspentTransactionOutput{
+			Outpoint: &bitcoin.TransactionOutpoint{TransactionHash: op.TransactionHash, OutputIndex: op.OutputIndex},
+			Value:    rapid.Int64Range(1, 2_100_000_000_000_000).Draw(t, "depositValue"),
+		}
+	}
+	var last *bitcoin.TransactionOutpoint
+	earlier := rapid.IntRange(0, 2).Draw(t, "earlierDeposits")
+	for i := 0; i < earlier; i++ {
+		p := c28GenDeposit(t)
+		op := newOutpoint()
+		if last != nil && rapid.Bool().Draw(t, "earlierSameOutpoint") {
+			op = last
+		}
+		attach(p, op)
+		last = op
+		script, err := p.d.Script()
+		if err != nil {
+			t.Fatalf("Script() failed for a well-formed deposit: %v", err)
+		}
+		want, err := c28Template(p.depositor, p.d.ExtraData, p.d.BlindingFactor, p.d.WalletPublicKeyHash, p.d.RefundPublicKeyHash, p.d.RefundLocktime)
+		if err != nil {
+			t.Fatalf("template: %v", err)
+		}
+		if !bytes.Equal(script, want) {
+			t.Fatalf("earlier deposit %d: script %x differs from the documented template %x", i+1, script, want)
+		}
+	}
+	g := c28GenDeposit(t)
+	relation := "first-deposit"
+	switch {
+	case last == nil:
+		if rapid.IntRange(0, 4).Draw(t, "noUtxo") == 0 {
+			return g, "no-utxo"
+		}
+		attach(g, newOutpoint())
+	default:
+		switch rapid.IntRange(0, 3).Draw(t, "outpointRelation") {
+		case 0, 1:
+			relation = "same-outpoint-as-earlier"
+			attach(g, last)
+		case 2:
+			relation = "same-funding-tx-other-output"
+			attach(g, &bitcoin.TransactionOutpoint{TransactionHash: last.TransactionHash, OutputIndex: last.OutputIndex + 1})
+		default:
+			relation = "unrelated-outpoint"
+			attach(g, newOutpoint())
+		}
+	}
+	return g, relation
+}
+
 func c28ExtraClass(e *[32]byte) string {
 	switch {
 	case e == nil:
@@ -201,7 +269,7 @@ func TestVerif_C28_SpendConditions(t *testing.T) {
 	st := verifkit.New("C28", "TestVerif_C28_SpendConditions")
 	defer st.Flush()
 	rapid.Check(t, func(t *rapid.T) {
-		g := c28GenDeposit(t)
+		g, relation := c28GenHistory(t)
 		script, err := g.d.Script()
 		if err != nil {
 			t.Fatalf("Script() failed for a well-formed deposit: %v", err)
@@ -286,8 +354,8 @@ func TestVerif_C28_SpendConditions(t *testing.T) {
 		// model
 		sameKind := (g.locktime < c28LocktimeThreshold) == (txLocktime < c28LocktimeThreshold)
 		locktimePassed := sameKind && txLocktime >= g.locktime && sequence != 0xffffffff
-		desc := fmt.Sprintf("L=%d(%s) tx.locktime=%d(%s) seq=%x pub=%s sig=%s %s extra=%v", g.locktime, g.ltClass, txLocktime, txLtClass, sequence, pubOf, signer,
-			map[bool]string{true: "p2wsh", false: "p2sh"}[witness], g.d.ExtraData != nil)
+		desc := fmt.Sprintf("L=%d(%s) tx.locktime=%d(%s) seq=%x pub=%s sig=%s %s extra=%v history=%s", g.locktime, g.ltClass, txLocktime, txLtClass, sequence, pubOf, signer,
+			map[bool]string{true: "p2wsh", false: "p2sh"}[witness], g.d.ExtraData != nil, relation)
 		verdict := ""
 		switch {
 		case pubOf != signer || pubOf == "third":
@@ -322,7 +390,7 @@ func TestVerif_C28_SpendConditions(t *testing.T) {
 		}
 		boundary := pubOf == "refund" && signer == "refund" && (txLtClass == "at" || txLtClass == "one-before" || txLtClass == "one-after") && g.spendableDomain
 		st.Case(boundary, desc, "path:"+pubOf+"/"+signer, "verdict:"+verdict, "locktime:"+g.ltClass, "tx-locktime:"+txLtClass,
-			fmt.Sprintf("sequence:%x", sequence), fmt.Sprintf("p2wsh:%v", witness), "extra-data:"+c28ExtraClass(g.d.ExtraData))
+			fmt.Sprintf("sequence:%x", sequence), fmt.Sprintf("p2wsh:%v", witness), "extra-data:"+c28ExtraClass(g.d.ExtraData), "history:"+relation)
 	})
 }
 
@@ -333,7 +401,7 @@ func TestVerif_C28_Embedding(t *testing.T) {
 	st := verifkit.New("C28", "TestVerif_C28_Embedding")
 	defer st.Flush()
 	rapid.Check(t, func(t *rapid.T) {
-		g := c28GenDeposit(t)
+		g, relation := c28GenHistory(t)
 		script, err := g.d.Script()
 		if err != nil {
 			t.Fatalf("Script() failed for a well-formed deposit: %v", err)
@@ -423,6 +491,6 @@ func TestVerif_C28_Embedding(t *testing.T) {
 			t.Fatalf("script has %d bytes, expected %d", len(script), wantLen)
 		}
 		st.Case(g.d.ExtraData != nil != (other.ExtraData != nil), fmt.Sprintf("depositor=%s blinding=%x extra=%v L=%d other-extra=%v", g.d.Depositor, g.d.BlindingFactor, g.d.ExtraData != nil, g.locktime, other.ExtraData != nil),
-			"extra-data:"+c28ExtraClass(g.d.ExtraData), "locktime:"+g.ltClass)
+			"extra-data:"+c28ExtraClass(g.d.ExtraData), "locktime:"+g.ltClass, "history:"+relation)
 	})
 }
